@@ -26,7 +26,7 @@ CHECKS = {
             'bounded exhaustive schema-state x value x endianness exploration of the compiled C++ full codec under ASan+UBSan',
             'Every state of the C++ universe is compiled (prophyc --cpp_full_out + shipped headers, clang++ ASan+UBSan) into a '
             'driver; the canonical bytes of every value are decoded in little, big and native order and re-encoded; decode must '
-            'succeed and the bytes must be identical. Exhaustive within the stated bounds.',
+            'succeed and the bytes must be identical. Exhaustive within the stated bounds. The same value is also assigned to a C++ object through its public members (generated builders fed a wire-independent word stream) and its encoding must be the documented bytes; every value is additionally decoded into the object that just held the previous value and must give the fresh-object result.',
             'Canonical bytes come from the reference model (C01 ties the Python codec to the same bytes). x86-64, clang 14.',
             '4 C03'),
     'C04': ('SSE', 'model_checking',
@@ -40,7 +40,7 @@ CHECKS = {
             'bounded exhaustive exploration of get_byte_size / encode(void*) / encode() agreement under ASan with canary arenas',
             'For every state x value x {as decoded, limited vectors over-filled, arrays cleared/optionals reset} x {little, big}: '
             'get_byte_size() equals the count returned by the pointer encode (measured in a canary-framed arena, then in an '
-            'exact-size heap buffer under ASan) and the vector length, and encoded_byte_size for fixed types.',
+            'exact-size heap buffer under ASan) and the vector length, and encoded_byte_size for fixed types. Values reach the C++ object by decode, by assignment through public members, and as the default-constructed object; limited vectors are overfilled, arrays cleared, optionals reset.',
             'Values reach the C++ object by decoding canonical bytes, so states a decode cannot produce are reached only '
             'through the listed mutations.', '4 C05'),
     'C06': ('FE', 'fault_enumeration',
@@ -50,14 +50,14 @@ CHECKS = {
             'orders): every proper prefix, extensions, every control word replaced by 13+ boundary values, every byte xor 01 / '
             'xor 80 / FF; plus all strings of length <= 6 (8) over a 5-byte alphabet for 23 small schemas. decode() must return '
             'or raise ProphyError within 4x the Python-call count of the largest valid decode; returned messages must encode '
-            'and re-decode to a fixpoint; tracemalloc bounds allocation on large control values.',
+            'and re-decode to a fixpoint; tracemalloc bounds allocation on large control values. Seven hand-written descriptors (sizer shift, member-less structs) get a layout-free menu (every prefix, every 1/2/4-byte word at every offset x boundary values) and the runtime element bound as a third oracle.',
             'Promptness is measured in Python-level calls (sys.setprofile), not wall time; memory is measured on control-word '
             'faults only.', '4 C06'),
     'C07': ('FE+CPP', 'fault_enumeration',
             'the same exhaustive fault menu fed to the compiled C++ full decoder under ASan+UBSan from exact-size heap buffers',
             'Every input of the C06 menu (little and big endian) is decoded by the driver built from prophyc --cpp_full_out '
             'and the shipped headers: no sanitizer report, allocation through operator new <= 4 KiB + 512 x input length '
-            '(single request capped at 1 MiB), and an accepted input must re-encode to exactly its own length.',
+            '(single request capped at 1 MiB), and an accepted input must re-encode to exactly its own length. Every valid input is also decoded into an object that already received each other valid input or one of six faulted ones and must give the fresh-object result.',
             'x86-64 / clang 14; the enum-range check reports without aborting so one recorded finding does not hide others.',
             '4 C07'),
     'C08': ('SSE+RAW', 'model_checking',
@@ -79,7 +79,7 @@ CHECKS = {
             'Breadth-first search over the operation alphabet (all field kinds, good, out-of-range and wrongly typed '
             'arguments) on a zoo of small messages; each state is reached by replaying its history on a fresh object, sparse '
             'and dense; every transition compares outcome class, observation, encode bytes, decode round trip and str() with '
-            'the reference model. Depth 3 (quick) / 4-5 (thorough), deduplicated on canonical states.',
+            'the reference model. Depth 3 (quick) / 4-5 (thorough), deduplicated on canonical states. Every transition is run three ways: sparse, dense, and on a handle fetched before the message is read again.',
             'The zoo groups interacting fields in small messages (operations on unrelated fields commute); wrongly typed '
             'indices are outside the alphabet.', '4 C10'),
     'C11': ('AHE', 'model_checking',
@@ -94,7 +94,7 @@ CHECKS = {
             'Positive: every state of the schema universe goes through prophyc with all three back-ends; the generated module '
             'must import and <schema>.ppf.cpp / <schema>.pp.cpp must pass g++ -fsyntax-only against the shipped headers. '
             'Negative: every documented composability rule x element types (direct, nested, typedef, typedef of typedef) x '
-            'array forms x positions (236 schemas); prophyc must refuse each with a ProphycError diagnostic.',
+            'array forms x positions (236 schemas); prophyc must refuse each with a ProphycError diagnostic. Every rule breaker is also compiled as the second input of a run whose first file uses the same names harmlessly.',
             'The rule catalogue is exactly the list in the property statement; g++ syntax check stands for compilation.',
             '4 C12'),
     'C13': ('ME', 'fault_enumeration',
@@ -105,7 +105,7 @@ CHECKS = {
             'digraphs of references between <= 3 typedef/struct/union definitions; every patch rule x arity x present/absent '
             'node and member; include errors; option subsets of size <= 3. prophyc.main must return, raise ProphycError / a '
             'designed plain Exception / SystemExit, within 5 x base + 100000 function starts and loop iterations '
-            '(sys.monitoring). Each chunk runs in its own process, so an interpreter crash is attributed to its input.',
+            '(sys.monitoring). Each chunk runs in its own process, so an interpreter crash is attributed to its input. After every successful run each requested output file must exist, be written by that run and be non-empty; all ordered selections of the output options x front-end x one or two inputs are part of the option product.',
             'Only the exception classes the property lists (and subclasses) count as internal; other classes are tallied.',
             '4 C13'),
     'C14': ('EE', 'model_checking',
@@ -144,7 +144,7 @@ CHECKS = {
             'Every permutation of up to 3 (quick) / 4 (thorough) members drawn from bytes, integer, enum, nested struct, array, '
             'optional, union and composite-array members, with integers whose decimal and hex spellings differ and bytes on '
             'both sides of every escape boundary; Python str() and C++ print() must equal the reference rendering. The general '
-            'C++ universe is rendered as well.',
+            'C++ universe is rendered as well. Objects built through public members are printed as well as decoded ones; member names that are sizer names elsewhere in the same file and bytes with format directives are in the text universe.',
             'Floats and bytes containing quote characters are excluded as the property states.', '4 C18'),
     'C19': ('SSE+CPP', 'model_checking',
             'bounded exhaustive span-wise comparison of little- and big-endian encodings (Python and compiled C++)',
